@@ -16,14 +16,14 @@ Definition PostJ (s s' : state) (o : outcome) : Prop :=
   match o with
   | ONorm => regs s' = regs s
   | OCaught _ _ _ | OUnwound _ => AsIf s s' o
-  | OPanic _ => False
+  | OPanic _ | OEscaped _ => False
   | OStuck => True
   end.
 Definition PostG (s s' : state) (o : outcome) : Prop :=
   match o with
   | ONorm => regs s' = regs s
   | OPanic _ => same_but_sp s s'
-  | OCaught _ _ _ | OUnwound _ => False
+  | OCaught _ _ _ | OUnwound _ | OEscaped _ => False
   | OStuck => True
   end.
 Definition Post (s s' : state) (o : outcome) : Prop :=
@@ -31,11 +31,12 @@ Definition Post (s s' : state) (o : outcome) : Prop :=
   | ONorm => regs s' = regs s
   | OPanic _ => same_but_sp s s'
   | OCaught _ _ _ | OUnwound _ => AsIf s s' o
+  | OEscaped _ => False
   | OStuck => True
   end.
 (* boundaries that restore everything *)
 Definition PostR (s s' : state) (o : outcome) : Prop :=
-  match o with OStuck => True | _ => regs s' = regs s end.
+  match o with OStuck => True | OEscaped _ => False | _ => regs s' = regs s end.
 
 Lemma TopOK_regs : forall a b, regs a = regs b -> TopOK b -> TopOK a.
 Proof.
@@ -71,7 +72,7 @@ Lemma PostJ_Post : forall s s' o, PostJ s s' o -> Post s s' o.
 Proof. intros s s' o; destruct o; simpl; auto; tauto. Qed.
 Lemma PostG_Post : forall s s' o, PostG s s' o -> Post s s' o.
 Proof. intros s s' o; destruct o; simpl; auto; tauto. Qed.
-Lemma PostR_PostG : forall s s' o, (match o with OCaught _ _ _ | OUnwound _ => False | _ => True end) -> PostR s s' o -> PostG s s' o.
+Lemma PostR_PostG : forall s s' o, (match o with OCaught _ _ _ | OUnwound _ | OEscaped _ => False | _ => True end) -> PostR s s' o -> PostG s s' o.
 Proof. intros s s' o; destruct o; simpl; auto. intros _ H. apply regs_same_but_sp; auto. Qed.
 
 
@@ -140,9 +141,9 @@ Proof.
   intros D' T'. apply H; auto. apply B3; auto. lia.
 Qed.
 
-Lemma raise_inv : forall p s s1, Ext s s1 -> ts s1 = ts s -> dv s1 = dv s -> GInv PostJ s (raise p s1).
+Lemma raise_inv : forall p s s1, Ext s s1 -> ts s1 = ts s -> dv s1 = dv s -> GInv PostJ s (raise0 p s1).
 Proof.
-  intros p s s1 E T D. unfold raise, handle_throw.
+  intros p s s1 E T D. unfold raise0, handle_throw.
   assert (L := handle_loop_leaked p (ts s1) s1).
   pose proof (handle_loop_outcome p (ts s1) s1) as O.
   destruct (handle_loop p (ts s1) s1) as [s' o] eqn:Hh. simpl in *.
@@ -165,9 +166,9 @@ Qed.
 
 Lemma raise_inv' : forall p s s1 s3 (K : Prop),
   dv s1 = dv s -> (dv s1 <= dv s3)%nat -> (fixed = true -> dv s3 = dv s1) -> (dv s3 = dv s1 -> K) ->
-  (K -> TopOK s -> Ext s s3 /\ ts s3 = ts s) -> GInv PostJ s (raise p s3).
+  (K -> TopOK s -> Ext s s3 /\ ts s3 = ts s) -> GInv PostJ s (raise0 p s3).
 Proof.
-  intros p s s1 s3 K D A B C H. unfold raise, handle_throw.
+  intros p s s1 s3 K D A B C H. unfold raise0, handle_throw.
   assert (L := handle_loop_leaked p (ts s3) s3).
   pose proof (handle_loop_outcome p (ts s3) s3) as O.
   destruct (handle_loop p (ts s3) s3) as [s' o] eqn:Hh. simpl in *.
@@ -180,7 +181,42 @@ Qed.
 Lemma TopOK_same : forall a b, cs b = cs a -> prg b = prg a -> sb b = sb a -> TopOK a -> TopOK b.
 Proof. unfold TopOK. intros a b H1 H2 H3 T C. rewrite H1 in C. destruct (T C). split; congruence. Qed.
 
+(* invariants that need no assumption on the start state *)
+Definition GInvN (P : state -> state -> outcome -> Prop) (s : state) (r : state * outcome) : Prop :=
+  (dv s <= dv (fst r))%nat /\ (fixed = true -> dv (fst r) = dv s) /\ (dv (fst r) = dv s -> P s (fst r) (snd r)).
+Lemma GInvN_GInv : forall P s r, GInvN P s r -> GInv P s r.
+Proof. intros P s r (A & B & C). split; [|split]; auto. Qed.
+
 (* vm.try restores the caller's registers exactly, whatever ran inside and however it ended *)
+Lemma vm_try_invN : forall (f : state -> state * outcome) s,
+  (forall s1, GInvN PostG s1 (f s1)) -> GInvN PostR s (vm_try f s).
+Proof.
+  intros f s Hf. unfold vm_try. set (s1 := push_try true false false s).
+  destruct (Hf s1) as (A & B & C).
+  destruct (f s1) as [s2 o]. simpl in A, B, C.
+  assert (Stuck : GInvN PostR s (s2, OStuck)) by (split; [|split]; simpl; auto).
+  destruct o; try exact Stuck.
+  - split; [|split]; simpl; auto. intros D. specialize (C D). simpl in C. apply regs_inv in C.
+    destruct C as (c1 & c2 & c3 & c4 & c5 & c6 & c7 & c8 & c9).
+    unfold s1 in *. cbn in c1, c2, c3, c4, c5, c6, c7, c8, c9. rsolve.
+  - (* panic: handleThrow at our own marker *)
+    assert (Hres : dv s2 = dv s1 -> regs (pop_try (fst (handle_throw p s2))) = regs s).
+    { intros D. specialize (C D). simpl in C. destruct C as (c2 & c3 & c4 & c5 & c6 & c7 & c8 & c9).
+      assert (Hx : extends s s2 [] [] 0) by (constructor; simpl; auto).
+      unfold handle_throw. rewrite c7. unfold s1. cbn [ts push_try set_ts].
+      pose proof (handle_loop_restores p _ s [] (ts s) s2 [] [] 0%nat (snap_new_frame _ _ _ s) (marker_not_skippable p s) eq_refl Hx) as W.
+      cbv zeta in W. cbn [app] in W. destruct W as (w1 & w2 & w3 & w4 & w5 & w6 & w7 & _).
+      cbn [t_marker new_frame negb andb] in w5. unfold bottom_regs in w6.
+      unfold flagged in w7. cbn [t_marker new_frame] in w7.
+      remember (fst (handle_loop p (new_frame true false false s :: ts s) s2)) as r eqn:Hr. clear Hr.
+      apply triple_inv in w6. destruct w6 as (h1 & h2 & h3).
+      unfold s1 in *. cbn in c2, c3, c4. rsolve. }
+    assert (Hdv : dv (pop_try (fst (handle_throw p s2))) = dv s2).
+    { unfold dv, handle_throw. cbn. rewrite handle_loop_leaked. reflexivity. }
+    destruct (catchable p); (split; [|split]; simpl; rewrite ?Hdv; auto; intros D; apply Hres; auto).
+Qed.
+
+(* the same for a computation whose invariant needs the top-level convention *)
 Lemma vm_try_inv : forall (f : state -> state * outcome) s,
   (forall s1, GInv PostG s1 (f s1)) -> GInv PostR s (vm_try f s).
 Proof.
@@ -214,31 +250,9 @@ Proof.
     + eapply (GInv_map PostR s s1 s2 _ _ (dv s2 = dv s1)); eauto; try reflexivity; intros; simpl; auto.
     + eapply (GInv_map PostR s s1 s2 _ _ (dv s2 = dv s1)); eauto; try reflexivity; intros; simpl; auto.
   - split; [|split]; simpl in *; auto.
+  - split; [|split]; simpl in *; auto.
 Qed.
 
-(* a Go function called from a run loop *)
-Lemma native_call_inv : forall n (f : state -> state * outcome) s,
-  (forall s2, GInv PostG s2 (f s2)) -> GInv PostJ s (native_call lim n f s).
-Proof.
-  intros n f s Hf. unfold native_call. set (s1 := add_sp (2 + n) s).
-  destruct (over lim s1).
-  { apply raise_inv; auto. apply Ext_same; reflexivity. }
-  set (s2 := set_sb (sp s1 - n) (set_prg false (push_ctx s1))).
-  destruct (Hf s2) as (A & B & C).
-  assert (T2 : TopOK s2) by (apply TopOK_ne; discriminate).
-  destruct (f s2) as [s3 o]. simpl in A, B, C. destruct o.
-  - eapply (GInv_map PostJ s s2 s3 _ _ (PostG s2 s3 ONorm)); eauto; try reflexivity.
-    { unfold dv. cbn. rewrite leaked_pop_ctx. reflexivity. }
-    intros k T. simpl in k. apply regs_inv in k. destruct k as (c1 & c2 & c3 & c4 & c5 & c6 & c7 & c8 & c9).
-    simpl. unfold s2, s1 in *. cbn in c1, c2, c3, c4, c5, c6, c7, c8, c9.
-    rewrite (pop_ctx_eq s3 _ _ c6). rsolve.
-  - split; [|split]; simpl in *; auto.
-  - split; [|split]; simpl in *; auto.
-  - eapply (raise_inv' p s s2 s3 (PostG s2 s3 (OPanic p))); eauto; try reflexivity.
-    intros k T. simpl in k. destruct k as (c2 & c3 & c4 & c5 & c6 & c7 & c8 & c9). split; [|exact c7].
-    exists [cur_ctx s1], [], 0%nat. split. constructor; simpl; auto. reflexivity.
-  - split; [|split]; simpl in *; auto.
-Qed.
 
 (* ---- pass-through of an abrupt run-loop outcome from an inner start state s1 to the node's start state s ---- *)
 Lemma PostJ_pass : forall s s1 s3 o,
@@ -355,13 +369,16 @@ Lemma Chain_state : forall s s2 s2' (K K' : Prop),
 Proof. intros s s2 s2' K K' (A & B & C) D H. split; [lia|split]. intros; rewrite D; auto. intros E T. apply H; auto. apply C; auto; lia. Qed.
 
 Lemma Chain_raise : forall p s s2 s3 (K : Prop),
-  Chain s s2 K -> dv s3 = dv s2 -> (K -> TopOK s -> Ext s s3 /\ ts s3 = ts s) -> GInv PostJ s (raise p s3).
+  Chain s s2 K -> dv s3 = dv s2 -> (K -> TopOK s -> Ext s s3 /\ ts s3 = ts s) -> GInv PostJ s (raise0 p s3).
 Proof.
   intros p s s2 s3 K (A & B & C) D H.
   eapply (raise_inv' p s s s3 (dv s2 = dv s)); try reflexivity; try lia.
   - intros F. rewrite D. auto.
   - intros E T. apply H; auto.
 Qed.
+
+Lemma dv_deviate : forall id s, dv (deviate id s) = S (dv s).
+Proof. reflexivity. Qed.
 
 Section WithEx.
 Variable ex : node -> state -> state * outcome.
@@ -379,6 +396,7 @@ Proof.
     + destruct H as (A & B & C). split; [|split]; simpl in *; auto.
     + destruct H as (A & B & C). split; [|split]; simpl in *; auto.
     + destruct H as (A & B & C). split; [|split]; simpl in *; auto.
+    + destruct H as (A & B & C). split; [|split]; simpl in *; auto.
 Qed.
 
 Lemma run_acts_inv : forall ns s, GInv PostG s (run_acts ex ns s).
@@ -387,6 +405,7 @@ Proof.
   - apply GInv_ret; simpl; auto.
   - pose proof (Hex n s) as H. destruct (ex n s) as [s1 o]. destruct o.
     + exact (GInv_seq PostG s s1 _ PostG_base H (IH s1)).
+    + destruct H as (A & B & C). split; [|split]; simpl in *; auto.
     + destruct H as (A & B & C). split; [|split]; simpl in *; auto.
     + destruct H as (A & B & C). split; [|split]; simpl in *; auto.
     + destruct H as (A & B & C). split; [|split]; simpl in *; auto.
@@ -413,7 +432,7 @@ Proof.
   intros sm s4 body Hts E0 r. subst r.
   destruct (run_items_inv body s4) as (A & B & C).
   rewrite loop_out_fst. split; [auto|split; [auto|]]. intros D T. specialize (C D T).
-  destruct (run_items ex body s4) as [s5 o]. simpl in *. destruct o; simpl; auto.
+  destruct (run_items ex body s4) as [s5 o]. simpl in *. destruct o; simpl in *; auto; try contradiction.
   destruct C as (p' & s'' & E & R & O). rewrite Hts in R, O.
   change (new_frame true false false sm :: ts sm) with ([] ++ new_frame true false false sm :: ts sm) in R, O.
   apply regs_inv in R. destruct R as (r1 & r2 & r3 & r4 & r5 & r6 & r7 & r8 & r9).
@@ -432,12 +451,12 @@ Proof.
     unfold bottom_ok in Hb. rewrite Hb in v6. inversion v6. repeat split; congruence.
 Qed.
 
-Lemma reentry_inv : forall n body s, GInv PostG s (reentry lim ex n body s).
+Lemma reentry_invN : forall n body s, GInvN PostG s (reentry lim ex n body s).
 Proof.
   intros n body s. unfold reentry.
   set (sa := add_sp (2 + n) s). set (s1 := push_try true false false sa).
   destruct (over lim s1).
-  { apply GInv_ret. reflexivity. intros _. simpl. unfold same_but_sp. cbn. auto 10. }
+  { split; [|split]; simpl; auto. intros _. unfold same_but_sp. cbn. auto 10. }
   change (prg s1) with (prg s).
   set (s4 := set_sb (sp s + 1) (set_stash 0 (set_prg true (set_args n
               (if prg s then set_cs (halt_ctx :: cs (push_ctx s1)) (push_ctx s1) else push_ctx s1))))).
@@ -464,7 +483,7 @@ Proof.
     split; [|split]; simpl; rewrite Dres.
     + lia.
     + intros F. rewrite B; auto.
-    + intros D T. assert (D5 : dv s5 = dv s4) by lia.
+    + intros D. assert (D5 : dv s5 = dv s4) by lia.
       specialize (C D5 HT). apply regs_inv in C. destruct C as (c1 & c2 & c3 & c4 & c5 & c6 & c7 & c8 & c9).
       rewrite Hcs in c6. rewrite Hts in c7.
       destruct (prg s) eqn:Hp.
@@ -477,11 +496,125 @@ Proof.
     split; [|split]; simpl.
     + unfold dv in *. cbn. lia.
     + intros F. specialize (B F). unfold dv in *. cbn. lia.
-    + intros D T. assert (D5 : dv s5 = dv s4) by (unfold dv in *; cbn in D; lia).
+    + intros D. assert (D5 : dv s5 = dv s4) by (unfold dv in *; cbn in D; lia).
       destruct (C D5 HT) as (c1 & c2 & c3 & c4 & c5 & c6 & c7). destruct (c7 HE) as (c8 & c9 & c10).
       unfold same_but_sp. cbn. rewrite c6, Hts. cbn. repeat split; congruence.
   - split; [|split]; simpl; [unfold dv in *; cbn; lia | intros F; specialize (B F); unfold dv in *; cbn; lia | auto].
 Qed.
+
+Lemma reentry_inv : forall n body s, GInv PostG s (reentry lim ex n body s).
+Proof. intros. apply GInvN_GInv. apply reentry_invN. Qed.
+
+(* ---- restoreStacks' walk: every return() call restores the registers; the iterator stack is untouched ---- *)
+Definition PostC (s s' : state) (o : outcome) : Prop :=
+  match o with ONorm | OPanic _ => regs s' = regs s | OStuck => True | _ => False end.
+
+Lemma close_items_inv : forall items s, GInvN PostC s (close_items lim ex items s).
+Proof.
+  induction items as [|[id [body|]] r IH]; intros s; simpl.
+  - split; [|split]; simpl; auto.
+  - pose proof (vm_try_invN (reentry lim ex 0 body) s (reentry_invN 0 body)) as (A & B & C).
+    destruct (vm_try (reentry lim ex 0 body) s) as [s1 o]. simpl in A, B, C.
+    destruct o.
+    + destruct (IH s1) as (A' & B' & C'). split; [lia|split].
+      * intros F. rewrite B', B; auto.
+      * intros D. assert (D1 : dv s1 = dv s) by lia. assert (D2 : dv (fst (close_items lim ex r s1)) = dv s1) by lia.
+        specialize (C D1). specialize (C' D2). simpl in C. destruct (snd (close_items lim ex r s1)); simpl in *; auto; congruence.
+    + split; [|split]; simpl; auto.
+    + destruct (IH s1) as (A' & B' & C'). split; [lia|split].
+      * intros F. rewrite B', B; auto.
+      * intros D. assert (D1 : dv s1 = dv s) by lia. assert (D2 : dv (fst (close_items lim ex r s1)) = dv s1) by lia.
+        specialize (C D1). specialize (C' D2). simpl in C. destruct (snd (close_items lim ex r s1)); simpl in *; auto; congruence.
+    + split; [|split]; simpl; auto.
+    + split; [|split]; simpl; auto.
+    + split; [|split]; simpl; auto.
+  - destruct (IH (set_log (log s ++ [close_ev id]) s)) as (A & B & C). split; [|split]; auto.
+Qed.
+
+Lemma with_regs_of_regs : forall s s1, regs (with_regs_of s s1) = regs s.
+Proof. reflexivity. Qed.
+
+(* handleThrow with the walk: as if the exception had been raised (purely) in the same state *)
+Lemma raiseE_inv' : forall inrec p s s1 s3 (K : Prop),
+  dv s1 = dv s -> (dv s1 <= dv s3)%nat -> (fixed = true -> dv s3 = dv s1) -> (dv s3 = dv s1 -> K) ->
+  (K -> TopOK s -> Ext s s3 /\ ts s3 = ts s) -> GInv PostJ s (raise lim fixed ex inrec p s3).
+Proof.
+  intros inrec p s s1 s3 K D A B C H. unfold raise, close_phase.
+  (* the pure handleThrow applied to a state with s3's registers *)
+  assert (Pure : forall q sx, dv sx = dv s3 -> regs sx = regs s3 -> GInv PostJ s (handle_throw q sx)).
+  { intros q sx Dx Rx. apply (raise_inv' q s s1 sx K); try lia.
+    - intros F. rewrite Dx; auto.
+    - intros E. apply C. lia.
+    - intros k T. destruct (H k T) as (E & Tt). apply regs_inv in Rx.
+      destruct Rx as (c1 & c2 & c3 & c4 & c5 & c6 & c7 & c8 & c9). split; [|congruence].
+      destruct E as (xs & ys & kk & [e1 e2 e3] & Eb). exists xs, ys, kk. split. constructor; congruence.
+      unfold bottom_ok, bottom_regs in *. destruct xs; congruence. }
+  destruct (catchable p) eqn:Hc; [|apply Pure; reflexivity].
+  destruct (target p (ts s3)) as [[tf rest]|] eqn:Ht; [|apply Pure; reflexivity].
+  destruct (target_spec p (ts s3) tf rest Ht) as (above & Ets & Hab & Hns).
+  set (sm := set_ts (tf :: rest) (restore_regs tf s3)).
+  assert (Dm : dv sm = dv s3).
+  { unfold sm, dv. cbn -[restore_regs]. destruct (restore_regs_fields tf s3) as (_ & _ & _ & _ & _ & _ & L & _). rewrite L. reflexivity. }
+  destruct (close_items_inv (firstn (length (its sm) - t_iter tf) (its sm)) sm) as (A' & B' & C').
+  destruct (close_items lim ex (firstn (length (its sm) - t_iter tf) (its sm)) sm) as [s4 o]. simpl in A', B', C'.
+  destruct o.
+  - (* all the return() calls came back: the pure part finishes *)
+    unfold handle_throw.
+    pose proof (handle_loop_leaked p (ts s4) s4) as L4.
+    pose proof (handle_loop_outcome p (ts s4) s4) as O4.
+    destruct (handle_loop p (ts s4) s4) as [s' o'] eqn:Hh. simpl in L4, O4.
+    eapply (GInv_map PostJ s s1 s4 s' o' (K /\ regs s4 = regs sm)); try lia.
+    + intros F. rewrite B', Dm, B; auto.
+    + intros E. split. apply C. lia. apply C'. lia.
+    + unfold dv. rewrite L4. reflexivity.
+    + intros (k & R4) T. destruct (H k T) as (E & Tt).
+      assert (Hts4 : ts s4 = tf :: rest). { apply regs_inv in R4. destruct R4 as (_ & _ & _ & _ & _ & _ & c7 & _). rewrite c7. reflexivity. }
+      rewrite Hts4 in Hh.
+      destruct (handle_after_regs p tf rest s3 s4 Hns R4) as (R & O). rewrite Hh in R, O. simpl in R, O.
+      assert (AI : AsIf s s' o').
+      { exists p, s3. rewrite <- Tt, Ets, (handle_loop_skip p above _ s3 Hab). auto. }
+      destruct o'; simpl; auto; contradiction.
+  - split; [|split]; simpl in *; [lia | intros F; rewrite B', Dm, B; auto | intros E; exfalso; apply C'; lia].
+  - split; [|split]; simpl in *; [lia | intros F; rewrite B', Dm, B; auto | intros E; exfalso; apply C'; lia].
+  - (* an uncatchable panic left a return() call *)
+    destruct (inrec && negb fixed) eqn:Hm.
+    + apply andb_prop in Hm. destruct Hm as (_ & Hf). apply negb_true_iff in Hf.
+      split; [|split]; simpl; rewrite ?dv_deviate; try lia. congruence.
+    + assert (G : GInv PostJ s (handle_throw p0 (with_regs_of s3 s4))).
+      { apply (raise_inv' p0 s s1 (with_regs_of s3 s4) K); try (unfold dv in *; cbn; lia).
+        - intros F. unfold dv in *. cbn. rewrite B', Dm, B; auto.
+        - intros E. apply C. unfold dv in *. cbn in E. lia.
+        - intros k T. destruct (H k T) as (E & Tt). split; [|exact Tt].
+          destruct E as (xs & ys & kk & [e1 e2 e3] & Eb). exists xs, ys, kk. split. constructor; auto. exact Eb. }
+      exact G.
+  - split; [|split]; simpl in *; [lia | intros F; rewrite B', Dm, B; auto | intros E; exfalso; apply C'; lia].
+  - split; [|split]; simpl in *; [lia | intros F; rewrite B', Dm, B; auto | auto].
+Qed.
+
+Lemma raiseE_inv : forall inrec p s s1, Ext s s1 -> ts s1 = ts s -> dv s1 = dv s ->
+  GInv PostJ s (raise lim fixed ex inrec p s1).
+Proof. intros. apply (raiseE_inv' inrec p s s1 s1 True); auto. Qed.
+
+Lemma Chain_raiseE : forall inrec p s s2 s3 (K : Prop),
+  Chain s s2 K -> dv s3 = dv s2 -> (K -> TopOK s -> Ext s s3 /\ ts s3 = ts s) ->
+  GInv PostJ s (raise lim fixed ex inrec p s3).
+Proof.
+  intros inrec p s s2 s3 K (A & B & C) D H.
+  eapply (raiseE_inv' inrec p s s s3 (dv s2 = dv s)); try reflexivity; try lia.
+  - intros F. rewrite D. auto.
+  - intros E T. apply H; auto.
+Qed.
+
+Lemma raiseE_deviated : forall inrec p s sd id, dv sd = dv s -> fixed = false ->
+  GInv PostJ s (raise lim fixed ex inrec p (deviate id sd)).
+Proof.
+  intros inrec p s sd id D F. eapply (raiseE_inv' inrec p s s (deviate id sd) False); try reflexivity.
+  - rewrite dv_deviate. lia.
+  - intros F'. congruence.
+  - rewrite dv_deviate. lia.
+  - intros [].
+Qed.
+
 
 (*INSERT*)
 (* ---- JS function called from a run loop ---- *)
@@ -529,18 +662,18 @@ Proof.
   apply Chain_GInv. eapply (Chain_bind PostJ s s2' sx (s3, o) K); eauto.
   - intros k T. destruct (HK k) as (F & _). eapply Framed_TopOK; eauto.
   - intros k T Pj. simpl in *. destruct (HK k) as (F & Sn & Dd).
-    destruct o; simpl in *; auto; try congruence; eapply AsIf_dead; eauto.
+    destruct o; simpl in *; auto; try congruence; try contradiction; eapply AsIf_dead; eauto.
 Qed.
 
 Lemma try_dofin_inv : forall fin s s2 sx d p (K : Prop),
   Chain s s2 K -> dv sx = dv s2 -> (K -> Framed s d sx /\ snap_of d s /\ dead d) ->
-  GInv PostJ s (try_dofin ex fin sx p).
+  GInv PostJ s (try_dofin lim fixed ex fin sx p).
 Proof.
   intros fin s s2 sx d p K Ch D HK. unfold try_dofin.
   pose proof (run_items_inv fin sx) as G. destruct (run_items ex fin sx) as [s3 o].
   destruct o; try (apply (dead_pass s d sx s2 s3 _ K Ch D G HK); discriminate).
   (* finally completed: leaveFinally pops the frame and re-throws *)
-  eapply (Chain_raise p s s3 (pop_try s3) (K /\ regs s3 = regs sx)); try reflexivity.
+  eapply (Chain_raiseE false p s s3 (pop_try s3) (K /\ regs s3 = regs sx)); try reflexivity.
   + eapply (Chain_bind PostJ s s2 sx (s3, ONorm) K); eauto.
     intros k T. destruct (HK k) as (F & _). eapply Framed_TopOK; eauto.
   + intros (k & R) T. destruct (HK k) as ((h1 & h2 & h3 & h4 & h5 & h6 & h7 & h8) & _).
@@ -594,7 +727,7 @@ Proof. intros tf M. unfold flagged. rewrite M. reflexivity. Qed.
 Lemma flagged_catch : forall tf, t_marker tf = false -> t_catch (flagged tf) = false.
 Proof. intros tf M. unfold flagged. rewrite M. reflexivity. Qed.
 
-Lemma try_node_inv : forall body cat fin hc hf s, GInv PostJ s (try_node ex body cat fin hc hf s).
+Lemma try_node_inv : forall body cat fin hc hf s, GInv PostJ s (try_node lim fixed ex body cat fin hc hf s).
 Proof.
   intros body cat fin hc hf s. unfold try_node.
   set (tf := new_frame false hc hf s). set (s1 := push_try false hc hf s).
@@ -665,6 +798,10 @@ Proof.
              [ intros A; destruct (HKc A) as (a1 & a2 & a3 & a4); auto
              | intros q Hq; rewrite flagged_catch in Hq by auto; inversion Hq
              | discriminate ].
+        -- apply (frame_pass s (flagged tf) (add_sp (-1) s2) s2 s3 _ _ Ch2 eq_refl Hc);
+             [ intros A; destruct (HKc A) as (a1 & a2 & a3 & a4); auto
+             | intros q Hq; rewrite flagged_catch in Hq by auto; inversion Hq
+             | discriminate ].
       * (* finally block with the exception pending *)
         eapply (try_dofin_inv fin s s2 s2 (flagged tf)); eauto.
         intros A. destruct (Own A eq_refl) as (Fr & Hsp & Hh).
@@ -672,6 +809,7 @@ Proof.
         split; [exact Fr|]. split. apply flagged_snap; auto. apply flagged_flagged_dead; reflexivity.
     + apply Hpass; auto; try discriminate.
       intros q Hq. destruct (t_catch tf); inversion Hq; subst; rewrite Nat.eqb_refl in Hi; discriminate.
+  - apply Hpass; auto; try discriminate. intros q Hq. destruct (t_catch tf); inversion Hq.
   - apply Hpass; auto; try discriminate. intros q Hq. destruct (t_catch tf); inversion Hq.
   - apply Hpass; auto; try discriminate. intros q Hq. destruct (t_catch tf); inversion Hq.
   - apply Hpass; auto; try discriminate. intros q Hq. destruct (t_catch tf); inversion Hq.
@@ -687,7 +825,7 @@ Proof.
   apply Chain_GInv. eapply (Chain_bind PostJ s s2' sx (s3, o) K); eauto.
   - intros k T. destruct (HK k) as (_ & _ & TT). auto.
   - intros k T Pj. simpl in *. destruct (HK k) as (E & Tt & _).
-    destruct o; simpl in *; auto; try congruence; eapply AsIf_ext; eauto.
+    destruct o; simpl in *; auto; try congruence; try contradiction; eapply AsIf_ext; eauto.
 Qed.
 
 Lemma GInv_regs_base : forall (P : state -> state -> outcome -> Prop) s sx r,
@@ -711,7 +849,7 @@ Qed.
 (* ---- for-of ---- *)
 Lemma forof_loop_inv : forall next body id k s s2 sx (K : Prop),
   Chain s s2 K -> dv sx = dv s2 -> (K -> regs sx = regs (set_its (id :: its s) s)) ->
-  GInv PostJ s (forof_loop lim ex next body k sx).
+  GInv PostJ s (forof_loop lim fixed ex next body k sx).
 Proof.
   intros next body id. induction k as [|k IH]; intros s s2 sx K Ch D HK.
   - (* last round: next() reports done *)
@@ -726,17 +864,18 @@ Proof.
     { eapply (Chain_bind PostR s s2 sx (s3, o) K); eauto. intros k0 T. specialize (HK k0). apply regs_inv in HK.
       destruct HK as (c1 & c2 & c3 & c4 & c5 & c6 & c7 & c8 & c9). cbn in *. eapply TopOK_same; eauto. }
     assert (HE3 : K /\ PostR sx s3 o -> o <> OStuck -> regs s3 = regs (set_its (id :: its s) s)).
-    { intros (k0 & R) Hs. rewrite <- (HK k0). destruct o; simpl in R; auto; congruence. }
+    { intros (k0 & R) Hs. rewrite <- (HK k0). destruct o; simpl in R; auto; try contradiction; congruence. }
     destruct o.
     + apply Chain_GInv. simpl. eapply Chain_state; eauto. intros kk T. apply HE3 in kk; [|discriminate].
       apply regs_inv in kk. destruct kk as (c1 & c2 & c3 & c4 & c5 & c6 & c7 & c8 & c9). cbn in *. rsolve. rewrite c8. reflexivity.
     + apply Chain_GInv. simpl. eapply Chain_state; eauto.
-    + eapply (Chain_raise p s s3); eauto. intros kk T. apply HE3 in kk; [|discriminate].
+    + eapply (Chain_raiseE false p s s3); eauto. intros kk T. apply HE3 in kk; [|discriminate].
       apply regs_inv in kk. destruct kk as (c1 & c2 & c3 & c4 & c5 & c6 & c7 & c8 & c9). cbn in *.
       split; [|cbn; auto]. apply Ext_same; cbn; try congruence. rewrite c8. reflexivity.
-    + eapply (Chain_raise p s s3); eauto. intros kk T. apply HE3 in kk; [|discriminate].
+    + eapply (Chain_raiseE true p s s3); eauto. intros kk T. apply HE3 in kk; [|discriminate].
       apply regs_inv in kk. destruct kk as (c1 & c2 & c3 & c4 & c5 & c6 & c7 & c8 & c9). cbn in *.
       split; auto. exists [], [id], 0%nat. split. constructor; simpl; auto. unfold bottom_ok, bottom_regs. congruence.
+    + apply Chain_GInv. simpl. eapply Chain_state; eauto.
     + apply Chain_GInv. simpl. eapply Chain_state; eauto.
   - simpl.
     assert (HE : K -> TopOK s -> Ext s sx /\ ts sx = ts s).
@@ -749,7 +888,7 @@ Proof.
     { eapply (Chain_bind PostR s s2 sx (s3, o) K); eauto. intros k0 T. specialize (HK k0). apply regs_inv in HK.
       destruct HK as (c1 & c2 & c3 & c4 & c5 & c6 & c7 & c8 & c9). cbn in *. eapply TopOK_same; eauto. }
     assert (HE3 : K /\ PostR sx s3 o -> o <> OStuck -> regs s3 = regs (set_its (id :: its s) s)).
-    { intros (k0 & R) Hs. rewrite <- (HK k0). destruct o; simpl in R; auto; congruence. }
+    { intros (k0 & R) Hs. rewrite <- (HK k0). destruct o; simpl in R; auto; try contradiction; congruence. }
     destruct o.
     + (* one more element: the loop body *)
       pose proof (run_items_inv body s3) as Gb. destruct (run_items ex body s3) as [s4 o2].
@@ -763,30 +902,32 @@ Proof.
       * eapply (Chain_bind PostJ s s3 s3 (s4, ONorm)); eauto. intros kk T. apply HK3; auto.
       * intros (kk & R). rewrite R. apply HE3; auto. discriminate.
     + apply Chain_GInv. simpl. eapply Chain_state; eauto.
-    + eapply (Chain_raise p s s3); eauto. intros kk T. apply HE3 in kk; [|discriminate].
+    + eapply (Chain_raiseE false p s s3); eauto. intros kk T. apply HE3 in kk; [|discriminate].
       apply regs_inv in kk. destruct kk as (c1 & c2 & c3 & c4 & c5 & c6 & c7 & c8 & c9). cbn in *.
       split; [|cbn; auto]. apply Ext_same; cbn; try congruence. rewrite c8. reflexivity.
-    + eapply (Chain_raise p s s3); eauto. intros kk T. apply HE3 in kk; [|discriminate].
+    + eapply (Chain_raiseE true p s s3); eauto. intros kk T. apply HE3 in kk; [|discriminate].
       apply regs_inv in kk. destruct kk as (c1 & c2 & c3 & c4 & c5 & c6 & c7 & c8 & c9). cbn in *.
       split; auto. exists [], [id], 0%nat. split. constructor; simpl; auto. unfold bottom_ok, bottom_regs. congruence.
     + apply Chain_GInv. simpl. eapply Chain_state; eauto.
+    + apply Chain_GInv. simpl. eapply Chain_state; eauto.
 Qed.
 
-Lemma forof_node_inv : forall id next n body s, GInv PostJ s (forof_node lim ex id next n body s).
+Lemma forof_node_inv : forall id next n body ret s, GInv PostJ s (forof_node lim fixed ex id next n body ret s).
 Proof.
-  intros id next n body s. unfold forof_node.
+  intros id next n body ret s. unfold forof_node.
   pose proof (reentry_inv 0 [] (add_sp 1 s)) as G. destruct (reentry lim ex 0 [] (add_sp 1 s)) as [s1 o].
   assert (Ch : Chain s s1 (PostG (add_sp 1 s) s1 o)).
   { eapply (Chain_bind PostG s s (add_sp 1 s) (s1, o) True);
       [apply Chain_start; auto | reflexivity | exact G | intros _ T; eapply TopOK_same; eauto; reflexivity | auto]. }
   destruct o.
-  - apply (forof_loop_inv next body id n s s1 (set_its (id :: its s1) (add_sp (-1) s1)) _ Ch eq_refl).
+  - apply (forof_loop_inv next body (id, ret) n s s1 (set_its ((id, ret) :: its s1) (add_sp (-1) s1)) _ Ch eq_refl).
     intros R. simpl in R. apply regs_inv in R. destruct R as (c1 & c2 & c3 & c4 & c5 & c6 & c7 & c8 & c9). cbn in *.
-    rsolve.
+    rsolve. Show.
   - apply Chain_GInv. simpl. eapply Chain_state; eauto.
   - apply Chain_GInv. simpl. eapply Chain_state; eauto.
-  - eapply (Chain_raise p s s1); eauto. intros (c2 & c3 & c4 & c5 & c6 & c7 & c8 & c9) T. cbn in *.
+  - eapply (Chain_raiseE true p s s1); eauto. intros (c2 & c3 & c4 & c5 & c6 & c7 & c8 & c9) T. cbn in *.
     split; auto. apply Ext_same; auto.
+  - apply Chain_GInv. simpl. eapply Chain_state; eauto.
   - apply Chain_GInv. simpl. eapply Chain_state; eauto.
 Qed.
 
@@ -807,8 +948,6 @@ Lemma gen_enter_eq : forall sa,
     else (ge2 sa, ONorm).
 Proof. reflexivity. Qed.
 
-Lemma dv_deviate : forall id s, dv (deviate id s) = S (dv s).
-Proof. reflexivity. Qed.
 
 (* the exit of a resumption whose run loop unwound to the resumption's marker (pushed at push_ctx s3) *)
 Lemma gen_abort_inv : forall s3 s4 s5 p (K : Prop),
@@ -953,7 +1092,7 @@ Qed.
 
 (* restored registers, and a Go-level outcome *)
 Definition PostL (s s' : state) (o : outcome) : Prop :=
-  match o with OCaught _ _ _ | OUnwound _ => False | OStuck => True | _ => regs s' = regs s end.
+  match o with OCaught _ _ _ | OUnwound _ | OEscaped _ => False | OStuck => True | _ => regs s' = regs s end.
 Lemma PostL_base : forall a b s' o, regs b = regs a -> PostL b s' o -> PostL a s' o.
 Proof. intros a b s' o H; destruct o; simpl; auto; congruence. Qed.
 Lemma PostL_PostG : forall s s' o, PostL s s' o -> PostG s s' o.
